@@ -12,6 +12,11 @@ from .director import InjectedBase, InjectedError, InjectedOSError
 
 def raise_for(f, director, key, phase, oserr=False, **extra):
     director.note_raised(f, key, phase, **extra)
+    from .director import make_special_exc
+
+    sp = make_special_exc(f['kind'], f['tag'])
+    if sp is not None:
+        raise sp
     if f['kind'] == 'base':
         raise InjectedBase(f['tag'])
     if f['kind'] == 'brokenpipe':
